@@ -82,6 +82,10 @@ type World struct {
 
 	steps int
 	halt  bool
+	// freeRun: engine E5's mode. Nodes answer at once from their own
+	// goroutines; nothing may touch the tape, the event queue or the run
+	// context from there.
+	freeRun bool
 }
 
 // SimStart is the simulated date every run jumps to before anything else
@@ -126,7 +130,7 @@ func (w *World) after(d time.Duration, fn func()) {
 // addPeer creates a node serving view.
 func (w *World) addPeer(role string, view *chainmodel.Block, beh *Behaviour) *SimPeer {
 	idx := len(w.peers)
-	p := &SimPeer{w: w, idx: idx, role: role, view: view, beh: beh, up: true,
+	p := &SimPeer{w: w, idx: idx, role: role, view: view, beh: beh,
 		addr:     &net.TCPAddr{IP: net.IPv4(10, 0, byte(idx/200), byte(1+idx%200)), Port: 18444},
 		services: wire.SFNodeNetwork | wire.SFNodeWitness | wire.SFNodeCF}
 	if beh == nil {
@@ -135,6 +139,7 @@ func (w *World) addPeer(role string, view *chainmodel.Block, beh *Behaviour) *Si
 	w.peers = append(w.peers, p)
 	w.net.mu.Lock()
 	w.net.peers[p.addr.String()] = p
+	w.net.up[p.addr.String()] = true
 	w.net.mu.Unlock()
 	return p
 }
@@ -214,7 +219,7 @@ func (w *World) shutdown(bound time.Duration) bool {
 		w.running = false
 	}
 	for _, p := range w.peers {
-		p.up = false
+		p.setUp(false)
 	}
 	w.closeAllConns()
 	synctest.Wait()
@@ -246,6 +251,9 @@ func (w *World) waitChan(ch <-chan struct{}, bound time.Duration) bool {
 // collect hands everything the client wrote to the node models, in canonical
 // (connection id) order.
 func (w *World) collect() {
+	for _, c := range w.net.takeFresh() {
+		c.peer.attach(c)
+	}
 	w.net.mu.Lock()
 	conns := append([]*simConn(nil), w.net.conns...)
 	w.net.mu.Unlock()
@@ -278,6 +286,9 @@ func (w *World) collect() {
 func (w *World) stepUntil(deadline time.Time, wake <-chan struct{}) {
 	synctest.Wait()
 	w.collect()
+	// collect may close connections (node behaviours), which wakes client
+	// goroutines: observe only once they have settled again.
+	synctest.Wait()
 	for _, o := range w.observers {
 		o()
 	}
